@@ -280,6 +280,11 @@ class StreamWriter(AbstractStreamWriter):
         if chunk and self._on_chunk_sent is not None:
             await self._on_chunk_sent(chunk)
 
+        # A declared length limits the final chunk exactly as it limits write()
+        if chunk and self.length is not None and self._compress is None:
+            chunk = chunk[: self.length]
+            self.length -= len(chunk)
+
         # Handle body/compression
         if self._compress:
             chunks: list[bytes] = []
